@@ -13,18 +13,25 @@ def impl_relatives(E, desc, cutoff, keep, starts, before=None):
         edges = pd.DataFrame({"Src": pd.Series([a for a, _ in E0], dtype="int64"), "Trg": pd.Series([b for _, b in E0], dtype="int64")})
         nodes = vlib.relabel(nodes, 1); edges = vlib.relabel(edges, 2)
         if before is not None:
-            try: find_relatives(nodes=nodes, nodes_key_col="id", edges=edges, relative_type="descendant" if desc else "ancestor", cutoff=cutoff, keep_paths=keep)
+            try: find_relatives(nodes=nodes, nodes_key_col="id", edges=edges, relative_type=direction_word(desc), cutoff=cutoff, keep_paths=keep)
             except BaseException: pass
             for i, ((a0, b0), (a1, b1)) in enumerate(zip(before, E)):
                 if a0 != a1: edges.iloc[i, edges.columns.get_loc("Src")] = a1
                 if b0 != b1: edges.iloc[i, edges.columns.get_loc("Trg")] = b1
-        df = find_relatives(nodes=nodes, nodes_key_col="id", edges=edges, relative_type="descendant" if desc else "ancestor", cutoff=cutoff, keep_paths=keep)
+        df = find_relatives(nodes=nodes, nodes_key_col="id", edges=edges, relative_type=direction_word(desc), cutoff=cutoff, keep_paths=keep)
         pcols = sorted(c for c in df.columns if isinstance(c, int))
         ids, lens, ends = df["id"].tolist(), df["len_path"].tolist(), df["end"].tolist()
         seqs = [[int(x) for x in row if not pd.isna(x)] for row in df[pcols].itertuples(index=False, name=None)] if keep else [[] for _ in ids]
         return ["ok", sorted([int(a), int(b), int(c), q] for a, b, c, q in zip(ids, lens, ends, seqs))]
     except BaseException as e:
         return ["err"]
+
+# the direction is a word; the library reads its first letter (a... = ancestors, anything else = descendants), so callers spell it as they like
+SPELL = {True: ["descendant", "descendants", "Descendants", "DESCENDANT", "d", "desc", "descendant", "children"], False: ["ancestor", "ancestors", "Ancestors", "ANCESTOR", "a", "anc", "ancestor", "A"]}
+_spell_i = [0]
+def direction_word(desc):
+    _spell_i[0] += 1
+    return SPELL[bool(desc)][_spell_i[0] % 8]
 
 def walks(E, desc, cutoff, starts):
     """independent enumeration of all walks (recursive), as [start, len, end, seq]"""
